@@ -584,7 +584,10 @@ def run(ctx):
                         qo, _, _ = run_lines(model, [command_line(proj, cfg, flags, glob, qf, qs, baseline)])
                         qexit, qres = parse_model(qo[0]) if qo else (None, None)
                         lost = sorted(f["path"] for f, g in zip(facts, qf) if f["scanned"] and not g["scanned"])
-                        if qres == cres and qexit == rc and lost and ctx.known("K01_basename_exclude", "files dropped: %s" % lost[:4]):
+                        # the same pruning by bare name can also take out a DIRECTORY that holds no scanned file (all of
+                        # them ignored): no file is lost then, but the directory counts of its parent change
+                        lost_dirs = qs != sres
+                        if qres == cres and qexit == rc and (lost or lost_dirs) and ctx.known("K01_basename_exclude", "files dropped: %s%s" % (lost[:4], "; directory results differ" if lost_dirs else "")):
                             hist["known_basename_exclude"] = hist.get("known_basename_exclude", 0) + 1
                             if "known_example" not in ctx.cov:
                                 ctx.cov["known_example"] = {"config": toml_of(cfg), "lost": lost[:6], "cli_exit": rc, "spec_exit": mexit}
